@@ -120,7 +120,10 @@ class AbstractAst:
 
         #TODO How to handle sub-formulas?
         entire_spec = self.modular_spec + self.spec
-        
+
+        if not entire_spec.strip():
+            raise RTAMTException('STL specification if empty')
+
         if entire_spec[-1] != ';':
             entire_spec += ';'
         
